@@ -1,5 +1,6 @@
 import DepsDev.Proofs.C06Spec
 import DepsDev.Proofs.C06Cycle
+import DepsDev.Proofs.C06Conflict
 import DepsDev.Proofs.C06T2
 
 /-!
@@ -29,7 +30,7 @@ covers them for the correspondence only).
 | E1 target is a satisfying version of the required package | `e1_partial` | needs `AliasFree`, `TableWf`; `e1_alias_refuted` |
 | every edge resolves a requirement of its source | `edges_from_requirements` | full |
 | T2 Node's walk-up lookup lands on the edge's target | `t2_partial` | needs `AliasFree`, `U3`, `TableWf`; `t2_alias_refuted` |
-| termination | not proved; false with aliases: `alias_cycle_never_finishes` | — |
+| termination | not proved; false with aliases (`alias_cycle_never_finishes`) and, without aliases and bundles, on conflict cycles (`conflict_cycle_never_finishes`; hypothesis `NoConflictCycle`) | — |
 -/
 
 namespace DepsDev.Props.C06
@@ -94,6 +95,94 @@ def LatestLast (u : Universe) : Prop := latestLast u = true
 /-- Hypothesis of E2: a (non-dev) optional requirement is not also peer- or bundle-scoped. -/
 def OptPlain (u : Universe) : Prop := ∀ e ∈ u.versions, OptPlainList e.2
 
+/-! ### Conflict cycles (hypothesis of termination; finding F-C06-conflict-cycle)
+
+A resolution of an alias-free, bundle-free universe can only go on for ever by nesting fresh
+installs ever deeper. A fresh install below the root level of a package `q` happens only after
+some requirement on `q` rejected an installed copy of `q` (or hit the trace of such a
+rejection), i.e. `q` is *conflicted*: the version one requirement would install is not accepted
+by another requirement. And every node of the tree was installed as the pick of a requirement
+of a node in its parent's subtree, so an infinite branch is an infinite walk in the *pick graph*
+(version → the versions its requirements would install) through conflicted packages; a node is
+never installed directly under a node of its own package (the `unreachable version` exit), so
+the walk cannot stay on one version. Only versions the root reaches in the pick graph are ever
+installed. `conflictCycleFrom` is this necessary condition: among the requirements of the
+versions reachable from the root, the pick graph restricted to conflicted packages, self-loops
+removed, has a cycle. -/
+
+/-- every requirement that survives `regularImports`, with the version that has it -/
+def allReqs (u : Universe) : List (Version × Import) :=
+  u.versions.flatMap fun e => (regularImports e.2).map fun d => (e.1, d)
+
+/-- the version a fresh install for `d` would pick -/
+def pickOf (u : Universe) (d : Import) : Option Version :=
+  match u.matchingVersions d.name d.req with
+  | .ok dvers =>
+    match wouldPick u dvers with
+    | .ok (some w) => some w
+    | _ => none
+  | _ => none
+
+/-- the walk-up for `d` would not reuse an installed copy `w` of its package -/
+def rejects (u : Universe) (d : Import) (w : Version) : Bool :=
+  d.req != Name.star &&
+    match u.matchingVersions d.name d.req with
+    | .ok dvers => !(dvers.any fun x => w.keyEq x)
+    | _ => false
+
+abbrev VKey := Name × Name
+
+def vkey (v : Version) : VKey := (v.name, v.version)
+
+/-- `n` rounds of adding successors -/
+def reachN (es : List (VKey × VKey)) : Nat → List VKey → List VKey
+  | 0, xs => xs
+  | n + 1, xs => reachN es n (xs ++ ((es.filter fun e => xs.contains e.1 && !xs.contains e.2).map (·.2)).eraseDups)
+
+/-- the full pick graph: version → the versions fresh installs for its requirements pick -/
+def fullPickEdges (u : Universe) : List (VKey × VKey) :=
+  (allReqs u).filterMap fun r =>
+    match pickOf u r.2 with
+    | some w => some (vkey r.1, vkey w)
+    | none => none
+
+/-- the requirements of the versions the root can ever cause to be installed -/
+def reqsFrom (u : Universe) (rn rv : Name) : List (Version × Import) :=
+  let es := fullPickEdges u
+  let reach := reachN es es.length [(rn, rv)]
+  (allReqs u).filter fun r => reach.contains (vkey r.1)
+
+/-- among `rs`: some requirement on `q` rejects the version another requirement on `q` installs -/
+def conflicted (u : Universe) (rs : List (Version × Import)) (q : Name) : Bool :=
+  rs.any fun r1 => r1.2.name == q &&
+    match pickOf u r1.2 with
+    | some w => rs.any fun r2 => r2.2.name == q && rejects u r2.2 w
+    | none => false
+
+/-- pick graph of `rs` on the versions of conflicted packages, self-loops removed -/
+def pickEdges (u : Universe) (rs : List (Version × Import)) : List (VKey × VKey) :=
+  let conf := (rs.map fun r => r.2.name).eraseDups.filter (conflicted u rs)
+  rs.filterMap fun r =>
+    if conf.contains r.1.name && conf.contains r.2.name then
+      match pickOf u r.2 with
+      | some w => if vkey r.1 = vkey w then none else some (vkey r.1, vkey w)
+      | none => none
+    else none
+
+/-- some edge `x → y` closes a cycle: `y` reaches `x` -/
+def hasCycle (es : List (VKey × VKey)) : Bool :=
+  es.any fun e => (reachN es es.length [e.2]).contains e.1
+
+/-- The root can reach a conflict cycle. -/
+def conflictCycleFrom (u : Universe) (rn rv : Name) : Bool := hasCycle (pickEdges u (reqsFrom u rn rv))
+
+/-- Hypothesis of termination for alias-free, bundle-free universes (argued necessary for
+non-termination above, conjectured sufficient for termination; without it termination is
+refuted by `conflict_cycle_never_finishes`). -/
+def NoConflictCycle (u : Universe) (rn rv : Name) : Prop := conflictCycleFrom u rn rv = false
+
+instance (u : Universe) (rn rv : Name) : Decidable (NoConflictCycle u rn rv) := by
+  unfold NoConflictCycle; infer_instance
 instance (u : Universe) : Decidable (U1 u) := by unfold U1; infer_instance
 instance (u : Universe) : Decidable (U2 u) := by unfold U2; infer_instance
 instance (u : Universe) : Decidable (U3 u) := by unfold U3; infer_instance
@@ -636,6 +725,19 @@ theorem alias_cycle_never_finishes :
     rw [Cycle.resolve_cycle]
     exact Cycle.loop_chain_none fuel 0 true Cycle.st0 Cycle.chain0⟩
 
+/-! ## Non-termination without aliases and bundles (F-C06-conflict-cycle) -/
+
+/-- On `a@1.0.0 {a@1.0.0, b@1.0.0}`, `a@2.0.0 {a@2.0.0, b@2.0.0}`, `b@1.0.0 {a@2.0.0, b@1.0.0}`,
+`b@2.0.0 {a@1.0.0, b@2.0.0}` — a well-formed, alias-free universe without bundled packages in
+which `a@1.0.0` reaches a conflict cycle — the resolution of `a@1.0.0` does not finish for any
+amount of fuel: the main loop installs the chain `b/a/b/a/…` for ever
+(`Proofs/C06Conflict.lean`). So termination needs a hypothesis such as `NoConflictCycle`. -/
+theorem conflict_cycle_never_finishes :
+    WF Conflict.conflictU ∧ AliasFree Conflict.conflictU ∧ LatestLast Conflict.conflictU ∧
+      OptPlain Conflict.conflictU ∧ ¬ NoConflictCycle Conflict.conflictU 7 5 ∧
+      ∀ fuel, resolve Conflict.conflictU 7 5 fuel = none :=
+  ⟨by decide, by decide, by decide, by decide, by decide, Conflict.resolve_none⟩
+
 /-! ## Non-vacuity -/
 
 /-- A diamond with a version conflict: `a@1 {b@^1, c@^1}`, `b@1 {d@^1}`, `c@1 {d@^2}`,
@@ -654,6 +756,7 @@ nested install: `d@2` sits in `c`'s own `node_modules` (path `c/d`) while `d@1` 
 to the root. -/
 example :
     WF diamondU ∧ AliasFree diamondU ∧ LatestLast diamondU ∧ OptPlain diamondU ∧
+      NoConflictCycle diamondU 9 5 ∧
       Finishes diamondU 9 5 10 (finalState diamondU 9 5 10) ∧
       (finalState diamondU 9 5 10).nodes.length = 5 ∧
       (finalState diamondU 9 5 10).edges.length = 4 ∧
@@ -679,6 +782,7 @@ sets compared byte for byte). No generated (`Gen.*`) constant is used.
                                                                                    [AliasFree, U3, TableWf]
   e1_alias_refuted, t2_alias_refuted, e2_optpeer_refuted, e4_latest_refuted : `decide` on witness universes
   alias_cycle_never_finishes              : Proofs/C06Cycle.lean (Chain invariant, induction on fuel)
-The hypotheses AliasFree, LatestLast, OptPlain, WF are evaluated by the driver's op
+  conflict_cycle_never_finishes           : Proofs/C06Conflict.lean (Chain invariant, induction on fuel)
+The hypotheses AliasFree, LatestLast, OptPlain, WF, NoConflictCycle (per root) are evaluated by the driver's op
 `C06 classify` with these very definitions and compared with the harness classifier.
 -/
